@@ -3,7 +3,8 @@
    Models: Tape.v (sweeps, Stack.cpp:139-190), Jacobian.v (jacobian.cpp).  T is any commutative
    ring given by [ring_theory]; [eqb_true] is the only fact used about the "a != 0.0" test. *)
 From Coq Require Import List Arith ZArith Permutation Ring.
-From Adept Require Import Scalar Tape TapeAdjoint Jacobian JacobianProofs.
+From Adept Require Import Scalar Tape TapeAdjoint Jacobian JacobianProofs JacobianDefs JacobianGenProofs.
+From AdeptGen Require Import Gen_Jacobian.
 Import ListNotations.
 
 Section C02.
@@ -73,3 +74,20 @@ Example C02_example :
   map (fun a => apply_writes (jac_rev_serial ZOps 2 t [0;1;0] [3;4] 1 0) (fun _ => (-7)%Z) (Z.of_nat a)) (seq 0 6)
     = [2; 10; 3; 15; 2; 10]%Z.
 Proof. split; [repeat constructor|]. vm_compute. split; reflexivity. Qed.
+
+(* tie G: every store into jacobian_out and every seed statement of adept/jacobian.cpp, TRANSLATED on each run
+   (routine, branch of `if (<offset> == 1)`, loop variables and bounds, address expression, work-array element):
+   the address is the one the model writes (model_addr = the formula of fwd_block_writes / rev_block_writes), the
+   element copied is (gradient index of the outer variable, lane i), the tested offset and the loop bounds are the
+   modelled ones, and both branches of every loop nest of all four routines are present *)
+Theorem C02_generated_stores_and_seeds :
+  Forall site_ok jacobian_sites /\ Forall seed_ok jacobian_seeds /\ sites_complete jacobian_sites jacobian_seeds = true.
+Proof. exact (conj generated_sites_ok (conj generated_seeds_ok generated_sites_complete)). Qed.
+Print Assumptions C02_generated_stores_and_seeds.
+Theorem C02_model_address_is_the_models : forall (T : Type) (l : list nat) (g : nat -> nat -> T) i0 bs doff ioff w,
+  (In w (fwd_block_writes l g i0 bs doff ioff) ->
+     exists idep i, (i < bs)%nat /\ w_dep w = idep /\ w_indep w = (i0 + i)%nat /\ w_addr w = model_addr true (ioff =? 1)%Z idep i0 i doff ioff) /\
+  (In w (rev_block_writes l g i0 bs doff ioff) ->
+     exists iindep i, (i < bs)%nat /\ w_indep w = iindep /\ w_dep w = (i0 + i)%nat /\ w_addr w = model_addr false (doff =? 1)%Z iindep i0 i doff ioff).
+Proof. intros T l g i0 bs doff ioff w. split; [exact (fwd_block_addr l g i0 bs doff ioff w)|exact (rev_block_addr l g i0 bs doff ioff w)]. Qed.
+Print Assumptions C02_model_address_is_the_models.
